@@ -93,11 +93,10 @@ def fmtObs (o : Obs K V) : String :=
 
 /-- the inherited `Mapping` API, defined (as `collections.abc` defines it) through `__getitem__` and
     `__iter__`: `get(k, default)`, `keys()`, `items()`, `values()` -/
-def mixinItems (d : CIDict K V) : List (K × V) :=
-  (CIDict.iter d).filterMap fun k => (CIDict.getitem lower d k).map fun v => (k, v)
 def fmtMixins (probes : List K) (d : CIDict K V) : String :=
-  let items := mixinItems d
-  s!"mget={fmtOpt (probes.map fun k => (k, CIDict.getitem lower d k))} keys={fmtKeys (CIDict.iter d)} items={fmtPairs items} values={if items.isEmpty then "~" else ",".intercalate (items.map fun p => fmtV p.2)}"
+  let items := mixinItems lower d
+  let mem := fmtBools (probes.map fun k => (k, CIDict.contains' lower d k))
+  s!"mget={fmtOpt (probes.map fun k => (k, CIDict.getitem lower d k))} keys={fmtKeys (CIDict.iter d)} items={fmtPairs items} values={if items.isEmpty then "~" else ",".intercalate (items.map fun p => fmtV p.2)} kin={mem} iin={mem}"
 
 def parseOpt (s : String) : List (K × Option V) :=
   if s = "~" then [] else (s.splitOn ",").map fun t =>
@@ -136,14 +135,14 @@ def parseObs (toks : List String) : Option (Obs K V) := do
 
 /-- the `Mapping`-mixin part of an observation line, as a second observation of the same shape
     (`get` ↦ gets, `keys` ↦ iter, `items` ↦ data) so that the same judge `obsOk` applies to it -/
-def parseMixins (o : Obs K V) (toks : List String) : Option (Obs K V × List String) := do
+def parseMixins (o : Obs K V) (toks : List String) : Option (Obs K V × List String × List (K × Bool) × List (K × Bool)) := do
   let kv := toks.map splitEq
   let f (n : String) : Option String := (kv.find? (·.1 = n)).map (·.2)
   let keys ← f "keys"
   let items := parsePairsC (← f "items")
   let values ← f "values"
   pure ({ o with gets := parseOpt (← f "mget"), iter := if keys = "~" then [] else keys.splitOn ",", data := items },
-        if values = "~" then [] else values.splitOn ",")
+        if values = "~" then [] else values.splitOn ",", parseBools (← f "kin"), parseBools (← f "iin"))
 
 def note (st : St) (s : String) : St := { st with notes := st.notes ++ [s] }
 
@@ -278,7 +277,10 @@ def stepOp (st : St) (toks : List String) : St :=
            let okFor (m : SMap K V) : Bool :=
              obsOk lower m o &&
              (match parseMixins o rest with
-              | some (o2, values) => obsOk lower m o2 && o2.iter == o.iter && values == o2.data.map (fun p => fmtV p.2)
+              | some (o2, values, kin, iin) =>
+                  obsOk lower m o2 && o2.iter == o.iter && values == o2.data.map (fun p => fmtV p.2)
+                  -- membership in keys() / items() views agrees with membership in the map (judged above)
+                  && kin == o.member && iin == o.member
               | none => false)
            if okFor sm || okFor (st.v r.toNat!) then st
                    else note { st with judgeOk := false } s!"judge r{r} impl[{io}] spec[{fmtKK (sm.map fun p => (p.1, p.2.1))}|{fmtPairs (sm.map fun p => (p.1, p.2.2))}]"
